@@ -15,7 +15,7 @@ from lib.vlib import cq_list, cq_bool
 
 SETUP_BUILDS = [{"name": "c05"}]
 COQ_TARGETS = ["Gguf/Properties_C05.v", "Gguf/Corr.v"]
-HEADER = ("From Coq Require Import List NArith ZArith Bool.\nFrom V Require Import Common.Bytes Gguf.Model Gguf.Corr.\n"
+HEADER = ("From Coq Require Import List NArith ZArith Bool Uint63.\nFrom V Require Import Common.Bytes Gguf.Model Gguf.Corr.\n"
           "Import ListNotations.\nOpen Scope N_scope.\n")
 M64 = 1 << 64
 
@@ -341,17 +341,17 @@ def signature(c, klass):
 
 # ---------------------------------------------------------------- rendering into Coq
 def cq_chunk(b):
-    """a run-free chunk: short = list literal, long = 32-byte little-endian words (hex numerals elaborate fast)"""
-    if len(b) <= 64:
+    """a run-free chunk: short = list literal, long = 7-byte little-endian words as primitive-int literals (fast to elaborate)"""
+    if len(b) <= 12:
         return vlib.cq_bytes(b)
-    ws = ["0x%x" % int.from_bytes(b[i:i + 32], "little") for i in range(0, len(b), 32)]
-    return "(unpack %d [%s])" % (len(b), ";".join(ws))
+    ws = ["0x%x" % int.from_bytes(b[i:i + 7], "little") for i in range(0, len(b), 7)]
+    return "(unp %d [%s]%%uint63)" % (len(b), ";".join(ws))
 
 
 def cq_bytes(b):
     """byte string as a Coq term of type list N.  A 16 KiB list literal overflows coqc's stack and long literals elaborate slowly,
     so: procedural tensor data as (pat seed len), runs of one byte as (repeat b n), other long stretches as packed words"""
-    if len(b) <= 64:
+    if len(b) <= 12:
         return vlib.cq_bytes(b)
     for seed in range(64):
         if b[0] == pat(seed, 1)[0] and b == pat(seed, len(b)):
@@ -378,8 +378,8 @@ def cqN(x):
 
 
 def cq_obytes(b):
-    if len(b) <= 200:
-        return "(OBExact %s)" % vlib.cq_bytes(b)
+    if len(b) <= 1000:
+        return "(OBExact %s)" % cq_chunk(b)
     return "(OBHash %d %d)" % (len(b), hash_bytes(b))
 
 
@@ -420,6 +420,8 @@ def cq_val(v):
         items = [cq_val(x) for x in v["a"]]
         if any(x is None for x in items):
             return None
+        if len(items) > 8 and len(set(items)) == 1:
+            return "VArr %d (Some (repeat (%s) (N.to_nat %d)))" % (n, items[0], len(items))
         return "VArr %d (Some %s)" % (n, cq_list(["(%s)" % x for x in items], "val"))
     if t == 99:
         return None
